@@ -185,6 +185,17 @@ def do_op(op: tuple, out: list) -> None:
             loc = dict(ns)
             exec(compile(BUILD_SRC[kind], f"<c16-{kind}>", "exec"), loc)  # noqa: S102
             out.append(("built", loc[DAG_NAME[kind]]))
+        elif kind == "setup_t":
+            t0 = T.tick()
+            FRESH["shared_2s"].setup(target_nodes=[op[1]])
+            FRESH["OPS"].append((op[1], t0, T.tick(), T.me_tid()))  # this operation stored the result of that setup node between t0 and now
+            out.append(("ok", "setup done"))
+        elif kind == "call_2s":
+            t0 = T.tick()
+            v = FRESH["shared_2s"](op[1])
+            t1 = T.tick()
+            FRESH["OPS"] += [("pa", t0, t1, T.me_tid()), ("pb", t0, t1, T.me_tid())]
+            out.append(("ok", repr(v)))
         elif kind == "setup_sp":
             FRESH["shared_sp"].setup()
             out.append(("ok", "setup done"))
@@ -257,6 +268,9 @@ SCENARIOS["pooled_call||pooled_call"] = [[("call_p", 1)], [("call_p", 5)]]
 SCENARIOS["pooled_call||build"] = [[("call_p", 1)], [("build",)]]
 # a call that is refused (too many arguments) in one thread, then calls in both threads: nothing stays locked behind the refusal
 SCENARIOS["refused_call_then_call||call"] = [[("call_bad", 1), ("call", 3)], [("call", 2), ("call_p", 2)]]
+# two targeted setup() calls for different setup nodes of one DAG, then a call: afterwards every setup node has run exactly once
+SCENARIOS["setup(pa)||setup(pb)"] = [[("setup_t", "pa"), ("call_2s", 1)], [("setup_t", "pb")]]
+SCENARIOS["call||setup(pb)"] = [[("call_2s", 1), ("call_2s", 2)], [("setup_t", "pb")]]
 # RUN_DEBUG_NODES is on: a setup() that takes its time in one thread, a call of a DAG with a debug node in the other, then calls in both
 SCENARIOS["slow_setup||debug_call"] = [[("setup_sp",), ("call_d", 1)], [("call_d", 2), ("call_d", 3)]]
 SCENARIOS["slow_setup||slow_setup"] = [[("setup_sp",), ("call_d", 1)], [("setup_sp",), ("call_d", 2)]]
@@ -274,6 +288,24 @@ def slow_prep():
 @dag
 def shared_sp(x):
     return add(x, slow_prep())
+
+RUNS = []  # (setup node, logical time at which its function was entered)
+
+@xn(setup=True, resource=M)
+def pa():
+    RUNS.append(("pa", T.tick(), T.me_tid()))
+    T.pause()
+    return 1
+
+@xn(setup=True, resource=M)
+def pb():
+    RUNS.append(("pb", T.tick(), T.me_tid()))
+    T.pause()
+    return 2
+
+@dag
+def shared_2s(x):
+    return add(add(x, pa()), pb())
 '''
 FRESH: Dict[str, Any] = {}  # DAG objects rebuilt before every execution of a scenario (their setup node has never run)
 SCENARIOS["first_call||first_call"] = [[("call_f", 1)], [("call_f", 2)]]  # both calls find the setup node still to be executed
@@ -304,11 +336,14 @@ def run_scenario(ops: List[List[tuple]], prefix, line_mode: bool, rv: int = 0, p
     outs: List[list] = [[] for _ in ops]
     if pre_setup:
         lib()["shared_s"].setup()
-    if any(op[0] in ("call_f", "setup_sp") for th in ops for op in th):
+    if any(op[0] in ("call_f", "setup_sp", "setup_t", "call_2s") for th in ops for op in th):
         loc = dict(lib())
         exec(compile(FRESH_SRC, "<c16-fresh>", "exec"), loc)  # noqa: S102
         FRESH["shared_f"] = loc["shared_f"]
         FRESH["shared_sp"] = loc["shared_sp"]
+        FRESH["shared_2s"] = loc["shared_2s"]
+        FRESH["RUNS"] = loc["RUNS"]
+        FRESH["OPS"] = []
 
     def body(i):
         def f():
@@ -326,6 +361,14 @@ def run_scenario(ops: List[List[tuple]], prefix, line_mode: bool, rv: int = 0, p
     s.run()
     final = [[finalize(o) for o in out] for out in outs]
     s.final = final
+    s.late_runs = []
+    if any(op[0] in ("setup_t", "call_2s") for th in ops for op in th):
+        # a setup node entered AFTER an operation that stores its result had already ended: the stored result was lost
+        for node, t, tid in FRESH["RUNS"]:
+            mine = [t0 for (n_, t0, end, tid_) in FRESH["OPS"] if tid_ == tid and t0 <= t <= end]
+            start = mine[0] if mine else t  # (an operation that raised is not in OPS: judge by the time of the run itself)
+            if any(n_ == node and end < start for (n_, _t0, end, _tid) in FRESH["OPS"]):
+                s.late_runs.append(node)
     return s
 
 
@@ -415,6 +458,10 @@ def run_case(acc, c, only_prefix=None):
                     acc.extra["stopped_after_thread_hang"] = 1
                     raise StopShard()
                 continue
+            twice = sorted(set(getattr(s, "late_runs", [])))
+            if twice:
+                acc.violation(V("setup_node_ran_twice", f"scenario {c['scenario']} ({c['mode']}): setup node(s) {twice} of one DAG object executed again AFTER an operation that "
+                                f"had stored their result was over (a result stored by one thread was lost by the other)", scenario=c["scenario"]), case, tuple(x for _, _, x in s.choices), None, "")
             for ti, (got_t, want_t) in enumerate(zip(s.final, want)):
                 for oi, (got, w) in enumerate(zip(got_t, want_t)):
                     if got != w:
